@@ -19,11 +19,21 @@ func VerifC10Route() {
 	P := verifrt.IntIn("P", 1, verifrt.Bound("maxp", 4))
 	hosted := verifrt.IntIn("hosted", -1, P-1) // partition hosted by the entry node (-1: none)
 	const local = uint64(1)
+	// noreplica=1: one partition may have lost all its replicas (replication factor 1 and
+	// its node removed): the owner of an id is a function of the id and the partition
+	// count only, whatever replicas the partitions have at the moment
+	gone := -2
+	if verifrt.Bound("noreplica", 0) == 1 {
+		gone = verifrt.IntIn("partition-without-replica", -1, P-1)
+	}
 	placement := make([][]uint64, P)
 	for i := range placement {
 		placement[i] = []uint64{uint64(100 + i)}
 		if i == hosted {
 			placement[i] = []uint64{local}
+		}
+		if i == gone && i != hosted {
+			placement[i] = []uint64{}
 		}
 	}
 	ds := verifDataset(local, 1, placement)
@@ -60,6 +70,7 @@ func VerifC10Route() {
 	op := verifrt.Choose("op", 6)
 	item := &pb.BatchItem{Id: id.Bytes(), Value: []float32{1}}
 	var err error
+	var errs map[uuid.UUID]error
 	switch op {
 	case 0:
 		err = ds.Insert(ctx, id, []float32{1}, nil)
@@ -68,15 +79,19 @@ func VerifC10Route() {
 	case 2:
 		err = ds.Remove(ctx, id)
 	case 3:
-		_, err = ds.BatchInsert(ctx, []*pb.BatchItem{item})
+		errs, err = ds.BatchInsert(ctx, []*pb.BatchItem{item})
 	case 4:
-		_, err = ds.BatchUpdate(ctx, []*pb.BatchItem{item})
+		errs, err = ds.BatchUpdate(ctx, []*pb.BatchItem{item})
 	case 5:
-		_, err = ds.BatchRemove(ctx, []*pb.BatchItem{item})
+		errs, err = ds.BatchRemove(ctx, []*pb.BatchItem{item})
 	}
-	_ = err
+	if idx == gone && idx != hosted {
+		// (a batch reports the failure per item)
+		verifrt.Assert(err != nil || errs[id] != nil, "write-to-a-partition-without-replica-is-refused")
+		verifrt.Tag("owner-without-replica")
+	}
 	for i, c := range clients {
-		if i == idx && i != hosted {
+		if i == idx && i != hosted && i != gone {
 			verifrt.Assert(len(c.getCalls()) == 1, "owner-replica-called-exactly-once")
 		} else {
 			verifrt.Assert(len(c.getCalls()) == 0, "no-other-partition-contacted")
